@@ -162,8 +162,16 @@ func (t Tags) Bytes() []byte {
 	sort.Strings(names)
 
 	for i := 0; i < len(names); i++ {
-		// Trim at max allowed chars.
-		if (buffer.Len() + len(names[i]) + len(t[names[i]]) + 2) > maxTagLength {
+		// Trim at max allowed chars: the key, "=value" if there is a value,
+		// and the separator if another tag follows.
+		need := len(names[i])
+		if len(t[names[i]]) > 0 {
+			need += 1 + len(t[names[i]])
+		}
+		if current < max-1 {
+			need++
+		}
+		if buffer.Len()+need > maxTagLength {
 			return buffer.Bytes()
 		}
 
